@@ -1,12 +1,21 @@
 """C03 - secured packets are delivered only if authentic and untampered.
 
-Decides the sanitiser discipline: every path from the link layer to the common-header dispatcher passes either
-"security not enabled" or "verify() reported SUCCESS on the received bytes, and the dispatched bytes are the verified
-plain message"; SUCCESS is constructed only under a true signature check over the re-encoded tbsData of the same
-message, with the message's own signature, under the key of a ticket that the certificate library vouched for and
-that verified; the library returns only known or freshly verified tickets; Certificate.verify and the ECDSA
-primitive can only answer True through the real checks.
-Does not decide cryptographic strength or OER parser behaviour under bit flips (value level).
+Decides the sanitiser discipline: every call of the common-header dispatcher lies either under "itsGnSecurity is not
+ENABLED" (unsecured-drop) or under "verify() reported SUCCESS" where the verify request carries the received bytes, the
+dispatched bytes are the plain_message of that same confirm and the secured path holds exactly one verify() call
+(verified-dispatch); SUCCESS is constructed only under a true backend.verify_with_pk(...) over the re-encoded tbsData of
+the same decoded message, with the message's own signature, under the verification key of the resolved ticket, and the
+delivered bytes are the payload inside that tbsData (success-needs-signature); that ticket is not None, is an
+authorization ticket, passed Certificate.verify with the service's backend and comes only from the certificate
+library's signer lookups on the message's own signer field (signer-vouched); the library's digest lookup is an exact-key lookup and its
+chain lookup returns only an admitted ticket found under the HashedId8 of the message's own certificate or a freshly
+built one that verified under an issuer taken from the library's own dictionaries (library-returns-verified); every
+truthy exit of Certificate.verify carries the signature check under the issuer's (or, marked self-signed, its own)
+explicit key, issuer correspondence and permission containment, and verify_signature answers False from its exception
+handler (cert-verify); the ECDSA primitive answers other than False only with the result of the library's
+VerifyingKey.verify over the caller's data, r/s and x/y with SHA-256 (backend).
+Does not decide cryptographic strength, OER parser behaviour under bit flips / trailing bytes (value level), nor
+histories of forged chains beyond trust-store closure (C09).
 """
 from __future__ import annotations
 
